@@ -114,6 +114,9 @@ class Leaf:
         self.trace = trace    # block names
 
 
+NORETURN = {'__assert_fail', '__assert_rtn', '__assert', 'abort', '_assert', '__assert_perror_fail'}
+
+
 class State:
     def __init__(self):
         self.env = {}
@@ -560,6 +563,9 @@ class Interp:
             st.env[ins.res] = a[i]
             return [st]
         if op == 'call':
+            c_ = ins.x.get('callee')
+            if c_ is not None and c_.k == 'global' and c_.v in NORETURN:
+                return []       # a failed assertion / abort ends the path: what follows is not a behaviour of the function
             return self.call(ins, st, fn, depth)
         raise Unsupported('opcode %s' % op)
 
